@@ -26,11 +26,16 @@ type wsIn struct {
 	Order     string   `json:"order"`
 	Reply     []string `json:"reply"`
 	Paced     bool     `json:"paced"`
+	Burst     int      `json:"burst,omitempty"` // a final client burst of this many bytes (pattern burstByte)
+	BurstSeed int      `json:"burst_seed,omitempty"`
+	SlowUp    bool     `json:"slowup,omitempty"` // the upstream is a slow consumer
 }
 
 type wsOut struct {
 	Up        string `json:"up"`
 	Cl        string `json:"cl"`
+	BurstGot  int    `json:"burst_got"`
+	BurstOK   bool   `json:"burst_ok"`
 	Handshake bool   `json:"handshake"` // client read a 101 and the upstream saw the relayed request
 	UpEnd     string `json:"upend"`
 	Served    bool   `json:"served"`
@@ -92,6 +97,9 @@ func runWS(raw json.RawMessage) (interface{}, error) {
 	if in.Order != "client" && in.Order != "upstream" && in.Order != "halfclose" {
 		return nil, errors.New("bad order")
 	}
+	if in.Burst < 0 || in.Burst > 64<<20 {
+		return nil, errors.New("burst out of range")
+	}
 
 	// upstream: accepts the relayed handshake, answers 101 (+ first bytes) in one write, then records
 	up, err := newUpstreamFunc(func(c net.Conn, ep *endpoint) bool {
@@ -109,7 +117,7 @@ func runWS(raw json.RawMessage) (interface{}, error) {
 		ep.recv = append(ep.recv, rest...)
 		ep.mu.Unlock()
 		return true
-	})
+	}, in.SlowUp)
 	if err != nil {
 		return nil, err
 	}
@@ -150,15 +158,34 @@ func runWS(raw json.RawMessage) (interface{}, error) {
 	var cep endpoint
 	cep.recv = append(cep.recv, rest...)
 	cep.attach(cc)
-	go writeSegs(cc, cchunks, in.Paced)
+	cwritten := make(chan struct{})
+	go func() {
+		defer close(cwritten)
+		writeSegs(cc, cchunks, in.Paced)
+		for off := 0; off < in.Burst; off += 256 * 1024 {
+			n := in.Burst - off
+			if n > 256*1024 {
+				n = 256 * 1024
+			}
+			if _, err := cc.Write(burstChunk(off, n, in.BurstSeed)); err != nil {
+				return
+			}
+		}
+	}()
 	go writeSegs(uep.c(), usegs, false)
-	waitUntil(waitT, nil, func() bool { return uep.n() >= clen && cep.n() >= xlen+ulen })
+	select {
+	case <-cwritten:
+	case <-time.After(4 * waitT):
+	}
+	// client→upstream: a client that finishes does so by FIN behind its data, nothing to wait for; only when
+	// the upstream finishes first everything sent so far must have arrived
+	waitUntil(waitT, nil, func() bool { return (in.Order != "upstream" || uep.n() >= clen+in.Burst) && cep.n() >= xlen+ulen })
 
 	served := true
 	switch in.Order {
 	case "client":
-		cc.Close()
-		served = waitUntil(waitT, nil, uep.ended)
+		cc.(*net.TCPConn).CloseWrite() // FIN behind the data; the client keeps reading
+		served = waitUntil(2*waitT, nil, uep.ended)
 	case "upstream":
 		uep.c().Close()
 		served = waitUntil(waitT, nil, cep.ended)
@@ -173,7 +200,12 @@ func runWS(raw json.RawMessage) (interface{}, error) {
 	waitUntil(waitT, nil, uep.ended)
 	upb, upend := uep.snapshot()
 	clb, _ := cep.snapshot()
-	return wsOut{Up: hx2(upb), Cl: hx2(clb), Handshake: true, UpEnd: upend, Served: served}, nil
+	headLen := clen
+	if in.Burst == 0 || headLen > len(upb) {
+		headLen = len(upb)
+	}
+	bgot, bok := burstCheck(upb[headLen:], in.BurstSeed)
+	return wsOut{Up: hx2(upb[:headLen]), Cl: hx2(clb), BurstGot: bgot, BurstOK: bok, Handshake: true, UpEnd: upend, Served: served}, nil
 }
 
 func genWSWith(r *hx.Rand, order string) wsIn {
@@ -189,6 +221,11 @@ func genWSWith(r *hx.Rand, order string) wsIn {
 	if order == "halfclose" {
 		in.Reply = hexes(cut(r, patBytes(r, r.Range(1, 40)), r.Intn(2)))
 	}
+	if order == "client" && r.Chance(1, 40) {
+		in.Burst = r.Range(2<<20, 8<<20)
+		in.BurstSeed = r.Intn(256)
+		in.SlowUp = true
+	}
 	return in
 }
 
@@ -202,5 +239,7 @@ func init() {
 		wsIn{Csegs: []segJ{{C: hx2([]byte("\x81\x05hello"))}, {E: "eof"}}, Usegs: []string{hx2([]byte("\x81\x05world"))}, U101Extra: []string{}, Order: "client", Reply: []string{}},
 		wsIn{Csegs: []segJ{{C: hx2([]byte("\x81\x05hello"))}}, Usegs: []string{}, U101Extra: []string{hx2([]byte("\x81\x02hi"))}, Order: "upstream", Reply: []string{}},
 		wsIn{Csegs: []segJ{{C: hx2([]byte("HELLO"))}, {E: "eof"}}, Usegs: []string{}, U101Extra: []string{}, Order: "halfclose", Reply: []string{hx2([]byte("REPLY"))}},
+		wsIn{Csegs: []segJ{{C: hx2([]byte("\x82\x7f"))}, {E: "eof"}}, Usegs: []string{hx2([]byte("ok"))}, U101Extra: []string{}, Order: "client", Reply: []string{}, Burst: 4 << 20, BurstSeed: 3, SlowUp: true},
+		wsIn{Csegs: []segJ{{E: "eof"}}, Usegs: []string{}, U101Extra: []string{}, Order: "client", Reply: []string{}, Burst: 6 << 20, BurstSeed: 9, SlowUp: true},
 	}})
 }
